@@ -51,7 +51,15 @@ func modelCheck(prop string, x *Exec, c *Case) ([]Violation, *Result, []*MatchRe
 		if len(cs.Corrupt) > 0 {
 			viol = append(viol, Violation{Prop: prop, Rule: "retained-data-overwritten", Detail: cs.Corrupt[0], Sig: "retained " + firstWords(cs.Corrupt[0], 1)})
 		}
-		if len(cs.cc.Faults) > 0 || t.Grammar != nil {
+		intrusive := false
+		for _, f := range cs.cc.Faults {
+			// (an error reported by Close and a slow peer do not change what the
+			// connection has to do)
+			if f.Kind != "close-err" && f.Kind != "write-slow" {
+				intrusive = true
+			}
+		}
+		if intrusive || t.Grammar != nil {
 			continue
 		}
 		mr := MatchConn(c, cs, t)
@@ -406,6 +414,9 @@ func init() {
 				return genConcurrent(r, r.Range(2, 4), histOpts{extended: true, closes: true, params: true, binary: true, unknownNames: true, maxUnits: units(tier, 6)}, 4096)
 			}
 			c := &Case{Server: ServerCfg{Limit: smallLimit(r)}}
+			if r.Chance(1, 5) {
+				c.Server.UserCaches = true
+			}
 			genHistory(r, c, histOpts{churn: r.Chance(1, 6), extended: true, closes: true, params: true, binary: true, unknownNames: true, errs: r.Bool(), maxUnits: units(tier, 10)})
 			if r.Chance(1, 4) {
 				// a second connection, served afterwards on the same server, refers to
